@@ -180,7 +180,7 @@ def extract(repo=REPO, verbose=False, extra_files=None, like=None):
     return cdir
 
 
-def _prune(keep, maxdirs=6):
+def _prune(keep, maxdirs=12, min_age_s=900):
     keep = set(keep)
     for k in keep:
         try:
@@ -191,8 +191,10 @@ def _prune(keep, maxdirs=6):
         ds = [os.path.join(CACHE, d) for d in os.listdir(CACHE)]
         ds = [d for d in ds if os.path.isdir(d) and os.path.exists(os.path.join(d, "DONE"))]
         ds.sort(key=lambda d: os.path.getmtime(d))
+        now = time.time()
         for d in ds[:-maxdirs]:
-            if d not in keep:
+            # never remove what a concurrently running check may be loading
+            if d not in keep and now - os.path.getmtime(d) > min_age_s:
                 shutil.rmtree(d, ignore_errors=True)
     except OSError:
         pass
